@@ -8,6 +8,8 @@ CONSTANTS
   FIX_MOVED = TRUE
   FIX_RMALL = TRUE
   FIX_PATHKEY = TRUE
+  FIX_ONLYDIR = TRUE
+  REUSE_EARLY = FALSE
   FIX_ENOENT = TRUE
 INVARIANT Emit
 CHECK_DEADLOCK FALSE
